@@ -484,6 +484,183 @@ def v_validate(p):
   p.verify('validate_file', eng, body)
 
 
+# ---------------------------------------------------------------------------
+# cifar100.load_split: download -> validate -> decompress -> convert (build, validate, publish)
+
+CF = 'fedjax/datasets/cifar100.py'
+CLEN = z3.Int('converted_len')      # size of the converted SQLite file when it is complete
+
+
+class BuilderV(Val):
+  """SQLiteFederatedDataBuilder(path): creates the file (an empty table: not the complete content) when constructed;
+  add_many fills it while it consumes its iterator and may fail anywhere in between."""
+
+  def __init__(self, path):
+    self.path = path
+
+  def method(self, ctx, name, args, kwargs):
+    g = ctx.ghost
+    lab = self.path.label
+    if name == '__enter__':
+      return self
+    if name == '__exit__':
+      g['open:' + lab] = z3.BoolVal(False)
+      return None
+    if name == 'add_many':
+      n = ctx.fresh('converted_so_far')
+      ctx.assume(z3.And(n >= 0, n < CLEN))
+      g['written:' + lab] = n
+      crash_point(ctx, f'add_many into {lab} (any number of clients written so far)')
+      fault(ctx, 'convert')
+      g['written:' + lab] = CLEN
+      ctx.tags['built'] = lab
+      crash_point(ctx, f'add_many into {lab} finished')
+      return None
+    raise Unsupported(f'builder.{name}')
+
+
+def v_cifar(p):
+  ex = p.extract(CF, 'load_split')
+
+  def mk_globals(ctx_calls):
+    g = globals_()
+
+    def c_builder(ctx, path):
+      if not isinstance(path, PathV):
+        raise Unsupported('builder path')
+      fault(ctx, 'builder_open')
+      e, _ = fstate(ctx, path.label)
+      if ctx.branch(e):
+        # CREATE TABLE on an existing database file fails (sqlite3.OperationalError): not an injected fault
+        raise RaiseSig(ExcV('OperationalError'))
+      ctx.ghost['exists:' + path.label] = z3.BoolVal(True)
+      ctx.ghost['written:' + path.label] = z3.IntVal(0)
+      ctx.ghost['open:' + path.label] = z3.BoolVal(True)
+      if path.is_final:
+        ctx.tags['totals'].setdefault(path.label, CLEN)
+      ctx_calls.append(('build', path.label))
+      crash_point(ctx, f'SQLiteFederatedDataBuilder({path.label})')
+      return BuilderV(path)
+
+    def c_new(ctx, path):
+      ctx_calls.append(('open', path.label if isinstance(path, PathV) else None))
+      return StrV()
+
+    def c_download(ctx, url, cache_dir=None, *a, **k):
+      fault(ctx, 'download', 'ConnectionError')
+      ctx_calls.append(('download', None))
+      return PathV('DL.lzma', LEN)
+
+    def c_validate(ctx, path, nbytes, digest):
+      ctx_calls.append(('validate', path.label if isinstance(path, PathV) else None, nbytes, digest))
+      fault(ctx, 'validate', 'ValueError')
+      return None
+
+    def c_decompress(ctx, path):
+      fault(ctx, 'decompress', 'LZMAError')
+      ctx_calls.append(('decompress', path.label if isinstance(path, PathV) else None))
+      return PathV('DL', DLEN)
+    g['downloads'] = Module('downloads', {
+        'maybe_download': Handler(c_download, 'maybe_download'), 'validate_file': Handler(c_validate, 'validate_file'),
+        'maybe_lzma_decompress': Handler(c_decompress, 'maybe_lzma_decompress'),
+        'log': Handler(lambda ctx, *a, **k: None, 'log')})
+    g['sqlite_federated_data'] = Module('sqlite_federated_data', {
+        'SQLiteFederatedDataBuilder': Handler(c_builder, 'SQLiteFederatedDataBuilder'),
+        'TFFSQLiteClientsIterator': Handler(lambda ctx, *a, **k: StrV(), 'TFFSQLiteClientsIterator'),
+        'SQLiteFederatedData': Module('SQLiteFederatedData', {'new': Handler(c_new, 'SQLiteFederatedData.new')})})
+    g['map'] = Handler(lambda ctx, f, it: StrV(), 'map')
+    g['_parse_tf_examples'] = StrV()
+    g['os'].attrs['path'].attrs['dirname'] = Handler(lambda ctx, p_: StrV(), 'dirname')
+    g['os'].attrs['path'].attrs['join'] = Handler(lambda ctx, *a: PathV('FILE', CLEN), 'os.path.join')
+    return g
+
+  for split in ('train', 'test'):
+    calls = []
+    eng = Engine(mk_globals(calls))
+    eng.sources = [CF]
+
+    def body(ctx, split=split, calls=calls, eng=eng):
+      del calls[:]
+      ctx.model_vars['converted_len'] = CLEN
+      ctx.assume(CLEN > 0)
+      ctx.tags['totals'] = {'FILE': CLEN}
+      # any crash-consistent cache: the converted file, if present, is complete; a stale temporary may hold anything
+      e, w = fstate(ctx, 'FILE')
+      ctx.assume(z3.Implies(e, w == CLEN))
+      fstate(ctx, 'FILE.partial')
+      fstate(ctx, 'FILE.tmp')
+      e0 = e
+      kind, r = eng.run_function(ctx, ex.funcv(), [split, 'sqlite', StrV()])
+      g = ctx.ghost
+      ctx.oblige('cifar.atomic.exit', z3.Implies(g['exists:FILE'], g['written:FILE'] == CLEN), kind='crash-invariant',
+                 detail='on return and on every exceptional exit the converted dataset file is absent or complete under its '
+                        'final name (its existence is all that later calls check)')
+      ctx.oblige('cifar.repair', kind == 'return' or ctx.tags.get('faults', 0) > 0,
+                 detail='from every state an earlier crash can leave (stale temporaries included) a call that meets no new '
+                        'error returns')
+      names = [c[0] for c in calls]
+      if 'decompress' in names:
+        i = names.index('decompress')
+        val = [c for c in calls[:i] if c[0] == 'validate']
+        ok = names[:1] == ['download'] and len(val) == 1 and val[0][1] == 'DL.lzma' and calls[i][1] == 'DL.lzma'
+        ctx.oblige('cifar.validated.download', bool(ok),
+                   detail='the downloaded archive is validated (size + sha256) before it is decompressed, and it is the '
+                          f'validated path that is decompressed (calls: {names})')
+        if ok:
+          src, tree = eng._module_tree(CF) if hasattr(eng, '_module_tree') else (None, None)
+          ctx.oblige('cifar.validated.download.consts',
+                     _is_const(ctx, eng, val[0][2], '_TFF_SQLITE_COMPRESSED_NUM_BYTES') and
+                     _is_const(ctx, eng, val[0][3], '_TFF_SQLITE_COMPRESSED_HEXDIGEST'),
+                     detail='against the pinned size and digest of the TFF archive')
+      if kind == 'return':
+        ctx.oblige('cifar.post', z3.And(g['exists:FILE'], g['written:FILE'] == CLEN),
+                   detail='a successful call leaves the complete converted file under its final name')
+        ctx.oblige('cifar.opened', bool(calls and calls[-1] == ('open', 'FILE')),
+                   detail='the dataset that is returned is opened on the final cache path')
+        built = [c for c in calls if c[0] == 'build']
+        ctx.oblige('cifar.reuse', z3.Implies(e0, z3.BoolVal(not built)),
+                   detail='a complete converted file is reused: no conversion')
+        if built:
+          bi = calls.index(built[0])
+          val = [c for c in calls[bi:] if c[0] == 'validate']
+          ok = len(built) == 1 and len(val) == 1 and val[0][1] == built[0][1]
+          ctx.oblige('cifar.validated.converted', bool(ok),
+                     detail='the file that was just built is validated (size + sha256 of this split) before it is returned')
+          if ok:
+            ctx.oblige('cifar.validated.converted.consts',
+                       _is_const(ctx, eng, val[0][2], '_FEDJAX_SQLITE_NUM_BYTES', split) and
+                       _is_const(ctx, eng, val[0][3], '_FEDJAX_SQLITE_HEXDIGEST', split),
+                       detail=f"against the pinned size and digest of the '{split}' split")
+    p.verify(f'cifar100.load_split[{split}]', eng, body)
+
+  eng2 = Engine(mk_globals([]))
+  eng2.sources = [CF]
+
+  def body_bad(ctx):
+    ctx.tags['totals'] = {}
+    kind, r = eng2.run_function(ctx, ex.funcv(), ['validation', 'sqlite', StrV()])
+    ctx.oblige('cifar.split.reject', kind == 'raise' and r.name == 'ValueError' and ctx.tags.get('effects', 0) == 0,
+               detail='an unknown split is rejected before anything is fetched or written')
+  p.verify('cifar100.load_split[bad split]', eng2, body_bad)
+
+
+def _is_const(ctx, eng, v, name, key=None):
+  """v is the value of module constant `name` (or name[key]) of cifar100.py."""
+  import ast
+  from ..extract import parse
+  _, tree = parse(CF)
+  for n in tree.body:
+    if isinstance(n, ast.Assign) and len(n.targets) == 1 and isinstance(n.targets[0], ast.Name) and n.targets[0].id == name:
+      try:
+        want = ast.literal_eval(n.value)
+      except Exception:
+        return False
+      if key is not None:
+        want = want.get(key) if isinstance(want, dict) else None
+      return want is not None and type(v) is type(want) and v == want
+  return False
+
+
 def build(p):
   D = 'native/C19.py'
   p.native('maybe_download', D, 'download')
@@ -492,9 +669,10 @@ def build(p):
   v_download(p)
   v_lzma(p)
   v_validate(p)
+  p.native('cifar100.load_split', D, 'cifar')
+  v_cifar(p)
   p.trust('T-IO: open(p, "wb") creates/truncates p atomically; write appends or raises; os.rename is atomic; '
           'r.raw.read(b) returns min(b, remaining) bytes or raises; the content-length header equals the payload '
           'size; shutil.copyfileobj/lzma copy everything or raise; any of these calls may fail (fresh fault flag per call)',
           'progress_ yields like range(n) (its documented contract)')
   p.not_covered.append('concurrent callers writing the same cache path (the source has a TODO; not in the statement)')
-  p.not_covered.append('cifar100.load_split builds its converted SQLite file in place (adjacent observation, not claimed)')
